@@ -32,7 +32,7 @@ type StandardClass struct {
 	pkg             *slip.Package
 	precedence      []slip.Symbol
 	defaultInitArgs map[string]slip.Object
-	initArgs        map[string]*SlotDef // map with keys of initargs
+	initArgs        map[string][]*SlotDef // map with keys of initargs, one entry per slot name
 	initForms       map[string]*SlotDef
 	methods         map[string]*slip.Method
 	baseClass       slip.Symbol
@@ -385,13 +385,13 @@ func (c *StandardClass) mergeSupers() bool {
 		}
 		m.Combinations = append(m.Combinations, im.Combinations...)
 	}
-	c.initArgs = map[string]*SlotDef{}
+	c.initArgs = map[string][]*SlotDef{}
 	c.initForms = map[string]*SlotDef{}
 	for i := len(c.inherit) - 1; 0 <= i; i-- {
 		if sc, ok := c.inherit[i].(isStandardClass); ok {
 			for _, sd := range sc.slotDefMap() {
 				for _, ia := range sd.initargs {
-					c.initArgs[string(ia)] = sd
+					c.addInitArg(string(ia), sd)
 				}
 				if sd.initform != slip.Unbound {
 					c.initForms[sd.name] = sd
@@ -401,7 +401,7 @@ func (c *StandardClass) mergeSupers() bool {
 	}
 	for _, sd := range c.slotDefs {
 		for _, ia := range sd.initargs {
-			c.initArgs[string(ia)] = sd
+			c.addInitArg(string(ia), sd)
 		}
 		if sd.initform != slip.Unbound {
 			c.initForms[sd.name] = sd
@@ -453,7 +453,20 @@ func (c *StandardClass) slotDefMap() map[string]*SlotDef {
 	return c.slotDefs
 }
 
-func (c *StandardClass) initArgDef(name string) *SlotDef {
+// addInitArg records that the initarg fills the slot of sd. An initarg can
+// fill more than one slot. A more specific definition of the same slot
+// replaces an inherited one.
+func (c *StandardClass) addInitArg(ia string, sd *SlotDef) {
+	for i, xsd := range c.initArgs[ia] {
+		if xsd.name == sd.name {
+			c.initArgs[ia][i] = sd
+			return
+		}
+	}
+	c.initArgs[ia] = append(c.initArgs[ia], sd)
+}
+
+func (c *StandardClass) initArgDefs(name string) []*SlotDef {
 	return c.initArgs[name]
 }
 
